@@ -53,9 +53,22 @@ fn main() {
     // it is left out of builds restricted (SNT_ONLY) to other modules
     tools.retain(|t| {
         let text = fs::read_to_string(src.join(format!("{}.rs", t))).unwrap_or_default();
-        text.lines().take(8).filter_map(|l| l.trim().strip_prefix("// requires:")).all(|reqs| {
+        let declared = text.lines().take(8).filter_map(|l| l.trim().strip_prefix("// requires:")).all(|reqs| {
             reqs.split(',').map(|r| r.trim().to_lowercase()).filter(|r| !r.is_empty()).all(|r| mods.contains(&r))
-        })
+        });
+        // references such as `crate::registry::c02::...` are requirements too
+        let mut referenced = true;
+        for (i, _) in text.match_indices("::c") {
+            let rest = &text[i + 3..];
+            let digits: String = rest.chars().take(2).collect();
+            let after = rest.chars().nth(2);
+            if digits.len() == 2 && digits.chars().all(|c| c.is_ascii_digit()) && after.map_or(true, |c| !c.is_ascii_alphanumeric() && c != '_') {
+                if !mods.contains(&format!("c{}", digits)) {
+                    referenced = false;
+                }
+            }
+        }
+        declared && referenced
     });
     for t in &tools {
         out.push_str(&format!("#[path = \"{}/{}.rs\"]\npub mod {};\n", src.display(), t, t));
